@@ -248,6 +248,8 @@ def bind(self, t, v, st, node):
 def store_subscript(self, t, v, st, node):
     base = self.eval(t.value, st)
     idx = self.eval(t.slice, st)
+    if isinstance(base, Num) and base.shape is not None and len(base.shape) == 2:
+        _store_2d(self, t, base, idx, v, st, node)
     if isinstance(base, Num):
         nv = tonum(v)
         self.events.append(('store', node, base.shape, taint_of(v) | self.pc, taint_of(idx), self.cur.qname if self.cur else ''))
@@ -324,6 +326,9 @@ def store_subscript(self, t, v, st, node):
         # write back
         tv = t.value
         if isinstance(tv, ast.Name):
+            pend = self.frames[-1].__dict__.get('amap_pending', {})
+            if tv.id in pend:
+                new.amap = pend[tv.id]
             st.env[tv.id] = new
         elif isinstance(tv, ast.Attribute):
             self.bind(tv, new, st, node)
@@ -362,6 +367,56 @@ def store_subscript(self, t, v, st, node):
     if isinstance(base, (TopV, Opaque)):
         return
     self.unsupported('element store into %s' % type(base).__name__, node)
+
+
+def _store_2d(self, t, base, idx, v, st, node):
+    """affine block maps of data matrices filled element by element or by 2-D slice stores (see values.Num.amap)"""
+    if not isinstance(t.value, ast.Name):
+        return
+    name = t.value.id
+    pend = self.frames[-1].__dict__.setdefault('amap_pending', {})
+    cur = pend.get(name, base.amap)
+    if cur == 'bad':
+        return
+    cur = list(cur or [])
+    from .prims import _int_aff
+    from . import segmap
+    new = None
+    if isinstance(idx, Tup) and len(idx.items) == 2 and isinstance(v, Num):
+        i0, i1 = idx.items
+        if _asint(i0) is not None and _asint(i1) is not None and v.shape == () and v.seg is not None and len(v.seg) == 1:
+            e1, e2, sg = _asint(i0).a, _asint(i1).a, v.seg[0]
+            if e1 is not None and e2 is not None:
+                s1 = [x for x in e1.t if x in Aff.BOUNDS]
+                s2 = [x for x in e2.t if x in Aff.BOUNDS]
+                if len(s1) == 1 and len(s2) == 1 and e1.t[s1[0]] == 1 and e2.t[s2[0]] == 1 and s1[0] != s2[0]:
+                    I, K = s1[0], s2[0]
+                    rho, kap = e1 - Aff.sym(I), e2 - Aff.sym(K)
+                    src = sg.start
+                    ai, ak = src.t.get(I, F(0)), src.t.get(K, F(0))
+                    c = src - Aff(0, {I: ai}) - Aff(0, {K: ak}) - rho.scale(ai) - kap.scale(ak)
+                    if not any(x in Aff.BOUNDS for x in c.t):
+                        loI, hiI = Aff.BOUNDS[I]
+                        loK, hiK = Aff.BOUNDS[K]
+                        if hiI is not None and hiK is not None:
+                            new = (loI + rho, hiI + rho, loK + kap, hiK + kap, ai, ak, c, sg.src, bool(v.mirror))
+        elif isinstance(i0, SliceV) and isinstance(i1, SliceV) and v.amap not in (None, 'bad') and i1.lo is None and i1.hi is None:
+            lo = _int_aff(i0.lo) if i0.lo is not None else Aff(0)
+            if lo is not None and len(v.amap) == 1:
+                r0, r1, k0, k1, ai, ak, c, src, cj = v.amap[0]
+                new = (r0 + lo, r1 + lo, k0, k1, ai, ak, c - lo.scale(ai), src, cj)
+        elif isinstance(i0, SliceV) and isinstance(i1, SliceV) and v.amap == 'bad':
+            pend[name] = 'bad'
+            return
+    if new is None:
+        if isinstance(v, Num) and (v.zero or (isinstance(idx, Tup) and False)):
+            return
+        pend[name] = 'bad' if cur else None
+        return
+    key = tuple(repr(x) for x in new)
+    if key not in [tuple(repr(x) for x in b) for b in cur]:
+        cur.append(new)
+    pend[name] = cur
 
 
 # ----------------------------------------------------------------------------- control flow
